@@ -122,6 +122,11 @@ def one_case(ctx: Ctx, stream: str, i: int, ctx_len: int, force_pattern=None) ->
             ctx.fail(stream, i, f'matmul-raises:{stb}', f'building a well-typed chain with @ ({build}) raised {stb}: {str(e)[:150]}',
                      {'planted': planted})
             return
+        # `@` flattens on both sides: whatever the grouping, the chain it builds has no composition among its operands —
+        # a nested chain hides the pairs across its boundary from every rule
+        if isinstance(e, CompositionOperator) and any(isinstance(o, CompositionOperator) for o in e.operands):
+            ctx.fail(stream, i, f'matmul-nests-chain:{build}', f'a chain built with @ ({build}) contains a composition as an operand: '
+                     f'{[type(o).__name__ for o in e.operands]}', {'planted': planted, 'build': build})
     enc = Encoder()
     esx = enc.op(e)
     enc.freeze()
